@@ -51,7 +51,7 @@ var (
 
 func sub(a *big.Int, k int64) *big.Int { return new(big.Int).Sub(a, big.NewInt(k)) }
 func add(a *big.Int, k int64) *big.Int { return new(big.Int).Add(a, big.NewInt(k)) }
-func pow2(k uint) *big.Int            { return new(big.Int).Lsh(bigOne, k) }
+func pow2(k uint) *big.Int             { return new(big.Int).Lsh(bigOne, k) }
 
 // limbPerturbations: every value whose four 64-bit limbs are those of m shifted by -1/0/+1
 // (wrapping), i.e. the inputs that separate a correct multi-limb comparison from a wrong one.
@@ -756,13 +756,13 @@ func genC06(w *bufio.Writer, r *rng, thorough bool) {
 		yl := largerRoot(y)
 		ys := subm(big.NewInt(0), yl)
 		for _, t := range []string{"0", "1"} {
-			emit(w, "pt.decunc %s%s %s", be32(x), be32(yl), t)                          // canonical
-			emit(w, "pt.decunc %s%s %s", be32(x), be32(ys), t)                          // wrong sign of y
-			emit(w, "pt.decunc %s%s %s", be32(alias), be32(yl), t)                      // x + p alias
-			emit(w, "pt.decunc %s%s %s", be32(x), be32(new(big.Int).Add(yl, pMod)), t)  // y + p alias
-			emit(w, "pt.decunc %s%s %s", be32(negx), be32(yl), t)                       // other sign of x
-			emit(w, "pt.decunc %s%s %s", be32(x), be32(add(yl, 1)), t)                  // wrong y
-			emit(w, "pt.decunc %s%s00 %s", be32(x), be32(yl), t)                        // trailing byte
+			emit(w, "pt.decunc %s%s %s", be32(x), be32(yl), t)                         // canonical
+			emit(w, "pt.decunc %s%s %s", be32(x), be32(ys), t)                         // wrong sign of y
+			emit(w, "pt.decunc %s%s %s", be32(alias), be32(yl), t)                     // x + p alias
+			emit(w, "pt.decunc %s%s %s", be32(x), be32(new(big.Int).Add(yl, pMod)), t) // y + p alias
+			emit(w, "pt.decunc %s%s %s", be32(negx), be32(yl), t)                      // other sign of x
+			emit(w, "pt.decunc %s%s %s", be32(x), be32(add(yl, 1)), t)                 // wrong y
+			emit(w, "pt.decunc %s%s00 %s", be32(x), be32(yl), t)                       // trailing byte
 		}
 	}
 	// common.ReadPoint over scripted readers: full, truncated (also with zero-padding-valid prefixes), chunked
@@ -2063,7 +2063,7 @@ func genC10(w *bufio.Writer, r *rng, thorough bool) {
 		chunkings := []string{"- 0 -", "- 1 -", ones + " 0 -", ones + " 1 -", "288,288 0 -", "288,288 1 -", "575,1 1 -", "576 1 -", "31,1,32,33,1000 0 -", "7,7,7,7,7,7,7,7,7,7,7,7,7,7,7,7,7,7,7,7,7,7,7,7,7,7,7,7,7,7,7,7,7,7,7,7,7,7,7,7,7,7,7,7,7,7,7,7,7,7,7,7,7,7,7,7,7,7,7,7,7,7,7,7,7,7,7,7,7,7,7,7,7,7,7,7,7,7,7,7,7,7,7 1 -"}
 		for _, c := range chunkings {
 			emit(w, "serde %s %s", hx(good), c)
-			emit(w, "serde %s00 %s", hx(good), c)   // one trailing byte
+			emit(w, "serde %s00 %s", hx(good), c)     // one trailing byte
 			emit(w, "serde %s %s", hx(good[:575]), c) // one byte short
 		}
 		emit(w, "serde.ipa %s - 0 -", hx(good[32:]))
